@@ -170,12 +170,12 @@ fn ops_sweep(ctx: &mut Ctx, lens: &[usize], block: usize, item0: &mut usize) {
                     let mut buf = a.clone();
                     let mut s1 = scratch.clone();
                     ops_reset();
-                    let r1 = std::panic::catch_unwind(std::panic::AssertUnwindSafe(|| pl.fft.process_with_scratch(&mut buf, &mut s1)));
+                    let r1 = crate::calls::lib_catch((|| pl.fft.process_with_scratch(&mut buf, &mut s1)));
                     let ops_a = ops_get();
                     let mut buf2 = b.clone();
                     let mut s2 = scratch.clone();
                     ops_reset();
-                    let r2 = std::panic::catch_unwind(std::panic::AssertUnwindSafe(|| pl.fft.process_with_scratch(&mut buf2, &mut s2)));
+                    let r2 = crate::calls::lib_catch((|| pl.fft.process_with_scratch(&mut buf2, &mut s2)));
                     let ops_b = ops_get();
                     let panic = if r1.is_err() || r2.is_err() { Some("panic in counting run".to_string()) } else { None };
                     let sat = |x: u64| x.min((1 << 27) - 1);
